@@ -52,7 +52,8 @@ Inductive sres :=
   | RBool (b : bool)
   | RText (t : bytes) (back : option filter_kind)
   | RFilter (f : option filter_kind)
-  | RHeadItems (items : list (N * N)) (len : N).   (* decoded (timestamp, author) items of the encoding, and its length in bytes *)
+  | RHeadItems (items : list (N * N)) (len : N)
+  | RBadFingerprint.            (* get_all answered, but the store's whole-document fingerprint is not the fingerprint of the answer *)   (* decoded (timestamp, author) items of the encoding, and its length in bytes *)
 
 Section StoreOps.
   Variable key_succ : bytes -> option bytes.
